@@ -163,7 +163,7 @@ fn repo_files() -> Vec<std::path::PathBuf> {
 pub fn check(ctx: &Ctx) -> i32 {
     let start = Instant::now();
     let mut ev = Evidence::default();
-    ev.rule = "inputs: (a) grammar-directed random programs (every term form in every operand position, explicit parentheses, negative literals, zero comparisons in both token orders, empty clause lists, type arguments, :cns bindings, comment/blank-line noise), (b) generated well-typed programs, (c) every .sc file of the repository; each with 3 configurations drawn from widths 1..200 and indents 0..8. Oracle: p1 = parse(text); t2 = print(p1, cfg); p2 = parse(t2) must succeed and equal p1 (spans ignored); print(p2, cfg) == t2. Non-trivial: the printed text differs from the same tree printed at unlimited width (a line was broken because of the width); distinct by hash of (source, width, indent).".into();
+    ev.rule = "inputs: (a) grammar-directed random programs (every term form in every operand position, explicit parentheses, negative literals, zero comparisons in both token orders, empty clause lists, type arguments, :cns bindings, comment/blank-line noise), (b) generated well-typed programs, (c) every .sc file of the repository; each with 3 configurations drawn from widths 1..200 and indents 0..8. Oracle: p1 = parse(text); t2 = print(p1, cfg); p2 = parse(t2) must succeed and equal p1 (spans ignored); print(p2, cfg) == t2. (d) a sample of (a) is written to a file and formatted twice with the real `scc fmt --inplace --width W --indent I`: exit status 0, the file parses to the same tree, the second run leaves it unchanged. Non-trivial: the printed text differs from the same tree printed at unlimited width (a line was broken because of the width); distinct by hash of (source, width, indent).".into();
     ev.assumptions = vec!["derived equality of fun::syntax::program::Program ignores spans only".into()];
     let mut report = Report { violations: vec![], infra_errors: vec![] };
     // known finding D9: replay the recorded inputs
@@ -216,6 +216,24 @@ pub fn check(ctx: &Ctx) -> i32 {
             files += 1;
         }
         ev.extra.insert("repository_files".into(), json!(files));
+        // the real formatter in its in-place mode
+        if report.violations.is_empty() {
+            match super::cli::scc_exe(ctx) {
+                None => report.infra_errors.push("the scc binary is not built (harness/target/scc); run ./check, not the harness directly".into()),
+                Some(exe) => {
+                    let n3 = ctx.tier.pick(300, 20000);
+                    let run3 = |b: &[u8]| {
+                        let (text, cfgs) = syntax_case(ctx, b);
+                        super::cli::c16_cli_case(ctx, &exe, &text, cfgs[0].0, cfgs[0].1)
+                    };
+                    let out3 = drive(&mut ev, ctx.seed, 216, n3, 40, 1500, 60, &run3);
+                    if let Some((bytes, f)) = out3.failure {
+                        eprintln!("{}", f.summary);
+                        report.violations.push(write_replay(ctx, "cli", &bytes, &f));
+                    }
+                }
+            }
+        }
         // coverage-guided campaign (thorough only)
         if ctx.tier == Tier::Thorough && report.violations.is_empty() {
             let mut seeds: Vec<Vec<u8>> = vec![];
@@ -253,6 +271,11 @@ pub fn check(ctx: &Ctx) -> i32 {
 }
 
 pub fn replay(ctx: &Ctx, sub: &str, bytes: &[u8], case: &serde_json::Value) -> CaseResult {
+    if sub.starts_with("cli") {
+        let Some(exe) = super::cli::scc_exe(ctx) else { return CaseResult::Discard("infra: scc binary not built".into()) };
+        let (text, cfgs) = syntax_case(ctx, bytes);
+        return super::cli::c16_cli_case(ctx, &exe, &text, cfgs[0].0, cfgs[0].1);
+    }
     if sub.starts_with("file") {
         let f = case["file"].as_str().unwrap_or("");
         let src = std::fs::read_to_string(f).unwrap_or_default();
